@@ -343,6 +343,10 @@ impl Prop for Store {
         }
         (out, format!("all {}-step histories over two labels (12 operations per step), every prefix compared", maxlen))
     }
+    fn extra_phase(&self, tier: Tier, seed: u64, rec: &mut Rec) -> Result<(), (StoreCase, Failure)> {
+        let seeds: Vec<Vec<u8>> = (0..8u8).map(|k| (0..64u8).map(|i| i.wrapping_mul(37).wrapping_add(k.wrapping_mul(11))).collect()).collect();
+        crate::fuzzphase::fuzz_phase::<StoreCase>("store_ops", tier, seed, rec, seeds, 2_000_000, 600)
+    }
     fn run(&self, case: &StoreCase, rec: &mut Rec) -> CheckResult {
         rec.class(if case.string_labels { "string-labels" } else { "usize-labels" });
         if case.string_labels {
